@@ -70,3 +70,309 @@ package gen
 //@   ensures [C02 int] old(len(n.BigBuf)) == 0 && old(n.Div) == 1 && old(n.Exp) == 0 && n.ForceFloat ==> isfloat64(num)
 //@   ensures [C02 kind] old(len(n.BigBuf)) == 0 && !(old(n.Div) == 1 && old(n.Exp) == 0) ==> isfloat64(num)
 //@   ensures [C06 notkey] !typeis(num, Key)
+
+// ---------------------------------------------------------------------------
+// gen.Parser: the same state machine and build stack as oj.Parser over gen.Node values (the file is a hand copy of
+// oj/parser.go); the contract is the oj.Parser contract with the predicates restated in this package (they name this
+// package's mode tables).
+
+//@ unit genparser
+
+//@ func (*Number).AsNode
+//@   requires NumInv(n)
+//@   ensures [C06 notkey] !typeis(num, Key)
+
+//@ func (*Parser).newError
+//@   requires 0 <= off && off <= 1099511627776 && -2305843009213693952 <= p.noff && p.noff < off
+//@   ensures [C09 pos] result != nil && typeis(result, ParseError, ptr)
+//@   ensures [C09 pos] as(result, ParseError).Line == p.line && as(result, ParseError).Column == off - p.noff
+
+//@ func (*Parser).byteError
+//@   requires 0 <= off && off <= 1099511627776 && -2305843009213693952 <= p.noff && p.noff < off
+//@   ensures [C09 pos] result != nil && typeis(result, ParseError, ptr)
+//@   ensures [C09 pos] as(result, ParseError).Line == p.line && as(result, ParseError).Column == off - p.noff
+
+//@ pred EqButOff(a, b) = a.Ph == b.Ph && a.Kinds == b.Kinds && a.Key == b.Key && a.Lit == b.Lit && a.K == b.K
+//@     && a.Line == b.Line && a.LastNL == b.LastNL && a.Multi == b.Multi && a.ErrOff == b.ErrOff && a.Docs == b.Docs
+//@     && a.H == b.H && a.Bases == b.Bases
+
+//@ pred EqButOffPh(a, b) = a.Kinds == b.Kinds && a.Key == b.Key && a.Lit == b.Lit && a.K == b.K
+//@     && a.Line == b.Line && a.LastNL == b.LastNL && a.Multi == b.Multi && a.ErrOff == b.ErrOff && a.Docs == b.Docs
+//@     && a.H == b.H && a.Bases == b.Bases
+
+//@ pred TopIs(q, kind) = q.Kinds.Len() > 0 && q.Kinds.Top() == kind
+
+//@ pred VNext(p, q) = (q.Key ==> ident(p.nextMode, colonMap)) && (!q.Key ==> ident(p.nextMode, afterMap)) && (q.Key ==> TopIs(q, spec.Obj))
+
+//@ pred VMode(p, q) =
+//@        (q.Ph == spec.DocStart ==> ident(p.mode, valueMap) && q.Kinds.Len() == 0)
+//@     && (q.Ph == spec.DocEnd   ==> ident(p.mode, spaceMap) && q.Kinds.Len() == 0 && !q.Multi)
+//@     && (q.Ph == spec.ArrFirst ==> ident(p.mode, valueMap) && TopIs(q, spec.Arr))
+//@     && (q.Ph == spec.ArrNext  ==> ident(p.mode, commaMap) && TopIs(q, spec.Arr))
+//@     && (q.Ph == spec.ObjFirst ==> ident(p.mode, key1Map) && TopIs(q, spec.Obj))
+//@     && (q.Ph == spec.ObjKey   ==> ident(p.mode, keyMap) && TopIs(q, spec.Obj))
+//@     && (q.Ph == spec.ObjColon ==> ident(p.mode, colonMap) && TopIs(q, spec.Obj))
+//@     && (q.Ph == spec.ObjValue ==> ident(p.mode, valueMap) && TopIs(q, spec.Obj))
+//@     && (q.Ph == spec.After    ==> ident(p.mode, afterMap) && q.Kinds.Len() > 0)
+//@     && (q.Ph == spec.Str      ==> ident(p.mode, stringMap) && VNext(p, q))
+//@     && (q.Ph == spec.StrEsc   ==> ident(p.mode, escMap) && VNext(p, q))
+//@     && (q.Ph == spec.StrU     ==> ident(p.mode, uMap) && VNext(p, q) && p.ri == q.K && 0 <= q.K && q.K <= 3)
+//@     && (q.Ph == spec.NumNeg   ==> ident(p.mode, negMap))
+//@     && (q.Ph == spec.NumZero  ==> ident(p.mode, zeroMap))
+//@     && (q.Ph == spec.NumInt   ==> ident(p.mode, digitMap))
+//@     && (q.Ph == spec.NumDot   ==> ident(p.mode, dotMap))
+//@     && (q.Ph == spec.NumFrac  ==> ident(p.mode, fracMap))
+//@     && (q.Ph == spec.NumE     ==> ident(p.mode, expSignMap))
+//@     && (q.Ph == spec.NumESign ==> ident(p.mode, expZeroMap))
+//@     && (q.Ph == spec.NumExp   ==> ident(p.mode, expMap))
+//@     && (q.Ph == spec.Lit ==> p.ri == q.K - 1 && 1 <= q.K && q.K < spec.LitLen(q.Lit)
+//@            && (q.Lit == spec.LitNull ==> ident(p.mode, nullMap)) && (q.Lit == spec.LitTrue ==> ident(p.mode, trueMap))
+//@            && (q.Lit == spec.LitFalse ==> ident(p.mode, falseMap)) && 0 <= q.Lit && q.Lit <= 2)
+//@     && spec.DocStart <= q.Ph && q.Ph < spec.Err
+
+//@ pred VErr(pe, k, qi, S, base, n, last) = 0 <= k && k <= n
+//@     && spec.Run(qi, S, base+k).Ph != spec.Err && spec.Run(qi, S, base+k).Off == base+k
+//@     && pe.Line == spec.Run(qi, S, base+k).Line && pe.Column == base + k - spec.Run(qi, S, base+k).LastNL
+//@     && (k < n ==> spec.Run(qi, S, base+k+1).Ph == spec.Err)
+//@     && (k == n ==> last && !spec.AcceptEOF(spec.Run(qi, S, base+k)))
+
+//@ pred EqState(a, b) = EqButOff(a, b) && a.Off == b.Off
+
+// The reported position designates offset ErrorAt of the text: line = 1 + newlines before it, column = bytes since the last newline.
+
+//@ lemma ErrAbsorbing(q spec.JState, S seq, n int, m int) [C01 C09] by induction on m:
+//@     0 <= n && n <= m && spec.Run(q, S, n).Ph == spec.Err ==> EqState(spec.Run(q, S, m), spec.Run(q, S, n))
+//@   use spec.Run.unfold(q, S, m)
+
+//@ pred IsKey(x) = typeis(x, Key)
+
+//@ pred IsMap(x) = typeis(x, Object) && anyref(x) != 0
+
+// A pending key lies on the stack: after a member name, while its value is being read.
+
+//@ pred KeyPushed(q) = q.Ph == spec.ObjColon || q.Ph == spec.ObjValue || q.Ph >= spec.NumNeg && q.Ph <= spec.Lit
+//@     || ((q.Ph == spec.Str || q.Ph == spec.StrEsc || q.Ph == spec.StrU) && !q.Key)
+
+// Levels: one entry of p.starts per open container; arrays record the stack index of their marker, objects -1; an
+// object's map sits at its base; a container opened as a member value sits two above its object (map, key).
+
+//@ pred PLevels(p, q) = len(p.starts) == q.Kinds.Len() && q.Bases.Len() == q.Kinds.Len() && len(p.stack) == q.H && 0 <= q.H
+//@     && (forall j: 0 <= j && j < len(p.starts) ==> 0 <= q.Bases[j] && q.Bases[j] < q.H && (q.Kinds[j] == spec.Arr || q.Kinds[j] == spec.Obj))
+//@     && (forall j: 0 <= j && j < len(p.starts) && q.Kinds[j] == spec.Arr ==> p.starts[j] == q.Bases[j])
+//@     && (forall j: 0 <= j && j < len(p.starts) && q.Kinds[j] == spec.Obj ==> p.starts[j] == -1 && IsMap(p.stack[q.Bases[j]]))
+//@     && (forall i, j: 0 <= i && i < j && j < len(p.starts) ==> q.Bases[i] < q.Bases[j])
+//@     && (forall j by q.Kinds[j]: 0 <= j && j + 1 < len(p.starts) && q.Kinds[j] == spec.Obj ==> q.Bases[j+1] == q.Bases[j] + 2 && IsKey(p.stack[q.Bases[j]+1]))
+//@     && (forall j by q.Kinds[j]: 0 <= j && j + 1 < len(p.starts) && q.Kinds[j] == spec.Arr ==> !IsKey(p.stack[q.Bases[j+1]-1]))
+//@     && (q.Kinds.Len() > 0 ==> q.Bases[0] == 0)
+
+// Top of the stack by context.
+
+//@ pred PTop(p, q) = (q.Kinds.Len() == 0 ==> q.H == 0)
+//@     && (TopIs(q, spec.Obj) && KeyPushed(q) ==> q.H == q.Bases.Top() + 2 && IsKey(p.stack[q.H-1]))
+//@     && (TopIs(q, spec.Obj) && !KeyPushed(q) ==> q.H == q.Bases.Top() + 1)
+//@     && (TopIs(q, spec.Arr) ==> q.H >= q.Bases.Top() + 1 && !IsKey(p.stack[q.H-1]))
+//@     && (q.Kinds.Len() > 0 ==> 0 <= q.Bases.Top() && q.Bases.Top() < q.H)
+//@     && (TopIs(q, spec.Obj) ==> IsMap(p.stack[q.Bases.Top()]) && p.starts[len(p.starts)-1] == -1)
+//@     && (TopIs(q, spec.Arr) ==> p.starts[len(p.starts)-1] == q.Bases.Top())
+//@     && (q.Kinds.Len() > 1 && q.Kinds[q.Kinds.Len()-2] == spec.Obj ==> q.Bases.Top() == q.Bases[q.Bases.Len()-2] + 2 && IsKey(p.stack[q.Bases.Top()-1]))
+//@     && (q.Kinds.Len() > 1 && q.Kinds[q.Kinds.Len()-2] == spec.Arr ==> q.Bases[q.Bases.Len()-2] < q.Bases.Top() && !IsKey(p.stack[q.Bases.Top()-1]))
+
+//@ pred POwn(p, buf) = arrid(p.tmp) != arrid(buf) && arrid(p.runeBytes) != arrid(buf) && arrid(p.num.BigBuf) != arrid(buf)
+
+// Every recycled map is a map (p.maps only ever receives the result of make).
+
+//@ pred PMaps(p) = (forall k: 0 <= k && k < len(p.maps) ==> p.maps[k] != nil)
+
+//@ pred PRel(p, q, n, base) = VMode(p, q) && PLevels(p, q) && PTop(p, q) && q.Off == n && q.Multi == !p.OnlyOne
+//@     && p.line == q.Line && p.noff == q.LastNL - base && 1 <= q.Line && q.Line <= n + 1 && -1 <= q.LastNL && q.LastNL < n
+//@     && (q.Ph >= spec.NumNeg && q.Ph <= spec.NumExp ==> NumInv(p.num)) && 0 <= p.mi && p.mi <= len(p.maps) && PMaps(p)
+
+// add: a value completes. Under a pending key it is stored in the object below and the key is popped, otherwise pushed.
+
+//@ func (*Parser).add
+//@   let L = len(p.stack)
+//@   let S0 = snap(p.stack)
+//@   let topKey = 2 <= len(p.stack) && IsKey(p.stack[len(p.stack)-1])
+//@   requires [C06 add-map] topKey ==> IsMap(p.stack[L-2])
+//@   modifies p.stack, heap(p.stack)
+//@   ensures [C01 C02 C06 add] topKey ==> len(p.stack) == L - 1 && (forall i: 0 <= i && i < L - 1 ==> p.stack[i] == S0[i])
+//@   ensures [C01 C02 C06 add] !topKey ==> len(p.stack) == L + 1 && p.stack[L] == n && (forall i: 0 <= i && i < L ==> p.stack[i] == S0[i])
+
+//@ func (*Parser).parseBuffer
+//@   ghost S seq, base int, qi spec.JState
+//@   opt stream = buf, S, base
+//@   opt forkappend = nonbyte
+//@   opt forkbytes = 4
+//@   requires 0 <= base && base + len(buf) <= 1152921504606846976
+//@   requires PRel(p, spec.Run(qi, S, base), base, base)
+//@   requires [own] POwn(p, buf)
+//@   modifies everything
+//@   ensures [C01 C09 sim] result == nil && !last ==> PRel(p, spec.Run(qi, S, base+len(buf)), base+len(buf), base) && POwn(p, buf)
+//@   ensures [C01 accept] result == nil && last ==> spec.AcceptEOF(spec.Run(qi, S, base+len(buf)))
+//@   ensures [C07 maps] PMaps(p)
+//@   ensures [C06 noff] result == nil ==> -1 - base <= p.noff && p.noff < len(buf)
+//@   ensures [C01 C09 reject] result != nil ==> typeis(result, ParseError, ptr) && VErr(as(result, ParseError), as(result, ParseError).Column + p.noff, qi, S, base, len(buf), last)
+//@   loop 0
+//@     invariant [C01 C06 C09 bounds] 0 <= off && off <= len(buf) && depth == len(p.starts)
+//@     invariant [C01 C09 sim] PRel(p, spec.Run(qi, S, base+off), base+off, base)
+//@     invariant [C07 own] POwn(p, buf)
+//@     variant len(buf) - off
+//@     split spec.Run(qi, S, base+off).Ph in spec.DocStart, spec.DocEnd, spec.ArrFirst, spec.ArrNext, spec.ObjFirst, spec.ObjKey, spec.ObjColon,
+//@        spec.ObjValue, spec.After, spec.Str, spec.StrEsc, spec.StrU, spec.NumNeg, spec.NumZero, spec.NumInt, spec.NumDot, spec.NumFrac,
+//@        spec.NumE, spec.NumESign, spec.NumExp, spec.Lit
+//@     use spec.Run.unfold(qi, S, base+off)
+//@     use S[base+off] == 'n' || S[base+off] == 't' || S[base+off] == 'f' ==> spec.Run.unfold(qi, S, base+off+1, 4)
+//@   loop 1
+//@     let o1 = off + 1
+//@     let i0 = i
+//@     let b0 = b
+//@     let R1 = spec.Run(qi, S, base+off+1)
+//@     invariant $k >= 0 ==> i == $k && b == $s[$k]
+//@     invariant $k == -1 ==> i == i0 && b == b0
+//@     invariant $k >= 0 ==> spaceMap[b] == skipChar
+//@     invariant [C01 C09 sim] EqButOff(spec.Run(qi, S, base+o1+$k+1), R1) && spec.Run(qi, S, base+o1+$k+1).Off == base+o1+$k+1
+//@     invariant [C01 C09 sim] $k >= 0 ==> EqButOff(spec.Run(qi, S, base+o1+$k), R1) && spec.Run(qi, S, base+o1+$k).Off == base+o1+$k
+//@     use spec.Run.unfold(qi, S, base+o1+$k+1)
+//@   loop 2
+//@     let o1 = off + 1
+//@     let i0 = i
+//@     let b0 = b
+//@     let R1 = spec.Run(qi, S, base+off+1)
+//@     invariant $k >= 0 ==> i == $k && b == $s[$k]
+//@     invariant $k == -1 ==> i == i0 && b == b0
+//@     invariant $k >= 0 ==> stringMap[b] == strOk
+//@     invariant [C01 C09 sim] EqButOff(spec.Run(qi, S, base+o1+$k+1), R1) && spec.Run(qi, S, base+o1+$k+1).Off == base+o1+$k+1
+//@     invariant [C01 C09 sim] $k >= 0 ==> EqButOff(spec.Run(qi, S, base+o1+$k), R1) && spec.Run(qi, S, base+o1+$k).Off == base+o1+$k
+//@     use spec.Run.unfold(qi, S, base+o1+$k+1)
+//@   loop 3
+//@     let o1 = off + 1
+//@     let i0 = i
+//@     let b0 = b
+//@     let R1 = spec.Run(qi, S, base+off+1)
+//@     invariant $k >= 0 ==> i == $k && b == $s[$k]
+//@     invariant $k == -1 ==> i == i0 && b == b0
+//@     invariant $k >= 0 ==> stringMap[b] == strOk
+//@     invariant [C01 C09 sim] EqButOff(spec.Run(qi, S, base+o1+$k+1), R1) && spec.Run(qi, S, base+o1+$k+1).Off == base+o1+$k+1
+//@     invariant [C01 C09 sim] $k >= 0 ==> EqButOff(spec.Run(qi, S, base+o1+$k), R1) && spec.Run(qi, S, base+o1+$k).Off == base+o1+$k
+//@     use spec.Run.unfold(qi, S, base+o1+$k+1)
+//@   loop 4
+//@     invariant true
+//@   loop 5
+//@     let o1 = off + 1
+//@     let i0 = i
+//@     let b0 = b
+//@     let R1 = spec.Run(qi, S, base+off+1)
+//@     invariant $k >= 0 ==> i == $k && b == $s[$k]
+//@     invariant $k == -1 ==> i == i0 && b == b0
+//@     invariant $k >= 0 ==> digitMap[b] == numDigit
+//@     invariant [C02 inv] NumInv(p.num) && len(p.num.BigBuf) == 0 && arrid(p.num.BigBuf) != arrid(buf)
+//@     invariant [C01 C09 sim] EqButOff(spec.Run(qi, S, base+o1+$k+1), R1) && spec.Run(qi, S, base+o1+$k+1).Off == base+o1+$k+1
+//@     use spec.Run.unfold(qi, S, base+o1+$k+1)
+//@   loop 6
+//@     let o1 = off + 1
+//@     let i0 = i
+//@     let b0 = b
+//@     let R1 = spec.Run(qi, S, base+off+1)
+//@     invariant $k >= 0 ==> i == $k && b == $s[$k]
+//@     invariant $k == -1 ==> i == i0 && b == b0
+//@     invariant $k >= 0 ==> digitMap[b] == numDigit
+//@     invariant [C02 inv] NumInv(p.num) && len(p.num.BigBuf) == 0 && arrid(p.num.BigBuf) != arrid(buf)
+//@     invariant [C01 C09 sim] $k >= 0 ==> spec.Run(qi, S, base+o1+$k+1).Ph == spec.NumFrac && EqButOffPh(spec.Run(qi, S, base+o1+$k+1), R1)
+//@     invariant [C01 C09 sim] $k >= 0 ==> spec.Run(qi, S, base+o1+$k+1).Off == base+o1+$k+1
+//@     use spec.Run.unfold(qi, S, base+o1+$k+1)
+//@   loop 7
+//@     let o1 = off + 1
+//@     let i0 = i
+//@     let b0 = b
+//@     let R1 = spec.Run(qi, S, base+off+1)
+//@     invariant $k >= 0 ==> i == $k && b == $s[$k]
+//@     invariant $k == -1 ==> i == i0 && b == b0
+//@     invariant $k >= 0 ==> spaceMap[b] == skipChar
+//@     invariant [C01 C09 sim] EqButOff(spec.Run(qi, S, base+o1+$k+1), R1) && spec.Run(qi, S, base+o1+$k+1).Off == base+o1+$k+1
+//@     invariant [C01 C09 sim] $k >= 0 ==> EqButOff(spec.Run(qi, S, base+o1+$k), R1) && spec.Run(qi, S, base+o1+$k).Off == base+o1+$k
+//@     use spec.Run.unfold(qi, S, base+o1+$k+1)
+
+//@ func (*Parser).Parse
+//@   ghost S seq, zero int, T seq
+//@   opt stream = buf, S, zero
+//@   opt forkappend = nonbyte
+//@   requires zero == 0 && S.Len() == len(buf) && len(buf) <= 1099511627776
+//@   requires forall j: 0 <= j && j < len(buf) - 3 ==> T[j] == S[j+3]
+//@   requires len(args) == 0
+//@   requires [own] POwn(p, buf) && PMaps(p)
+//@   modifies everything
+//@   let hasBOM = 2 < len(buf) && S[0] == 0xEF && S[1] == 0xBB && S[2] == 0xBF
+//@   ensures [C01 C07 accept] !hasBOM ==> (result1 == nil <==> spec.AcceptEOF(spec.Run(spec.Init(false), S, len(buf))))
+//@   ensures [C01 C07 accept-bom] hasBOM ==> (result1 == nil <==> spec.AcceptEOF(spec.Run(spec.Init(false), T, len(buf) - 3)))
+//@   ensures [C07 maps] PMaps(p)
+//@   use spec.Run.unfold(spec.Init(false), S, as(result1, ParseError).Column + p.noff), spec.Run.unfold(spec.Init(false), T, as(result1, ParseError).Column + p.noff)
+//@   use ErrAbsorbing(spec.Init(false), S, as(result1, ParseError).Column + p.noff + 1, len(buf))
+//@   use spec.Run.unfold(spec.Init(false), S, 0), ErrAbsorbing(spec.Init(false), S, 1, len(buf))
+//@   use ErrAbsorbing(spec.Init(false), T, as(result1, ParseError).Column + p.noff + 1, len(buf) - 3)
+//@   loop 0
+//@     invariant p.OnlyOne
+//@   loop 1
+//@     invariant -1 <= i && i < len(p.stack)
+//@     variant i + 1
+//@   at call parseBuffer#0
+//@     with S = T
+//@     with base = 0
+//@     with qi = spec.Init(false)
+//@     use spec.Run.unfold(spec.Init(false), T, 0)
+//@   at call parseBuffer#1
+//@     with S = S
+//@     with base = 0
+//@     with qi = spec.Init(false)
+//@     use spec.Run.unfold(spec.Init(false), S, 0)
+
+//@ func (*Parser).ParseReader
+//@   ghost R seq, X seq, shift int
+//@   ghostvar total = 0
+//@   ghostvar cb = 0
+//@   ghostvar cl = 0
+//@   opt forkappend = nonbyte
+//@   requires forall j: 0 <= j ==> X[j] == R[j + shift]
+//@   requires len(args) == 0 && r != nil
+//@   requires [own] PMaps(p) && 0 <= len(p.tmp) && 0 <= len(p.runeBytes) && 0 <= len(p.num.BigBuf)
+//@   modifies everything
+//@   ensures [C01 C03 accept] err == nil ==> spec.AcceptEOF(spec.Run(spec.Init(false), X, total - shift))
+//@   ensures [C01 C03 C09 reject] typeis(err, ParseError, ptr) ==> VErr(as(err, ParseError), as(err, ParseError).Column + p.noff, spec.Init(false), X, cb, cl, true)
+//@       || VErr(as(err, ParseError), as(err, ParseError).Column + p.noff, spec.Init(false), X, cb, cl, false)
+//@   ensures [C07 maps] PMaps(p)
+//@   loop 0
+//@     invariant p.OnlyOne
+//@   loop 1
+//@     invariant [C03 chunk] 0 <= total && (total == 0 ==> skip == shift) && (total > 0 ==> skip == 0) && skip <= len(buf)
+//@     invariant [C03 chunk] total + len(buf) <= 1152921504606846000
+//@     invariant [C03 chunk] forall j: 0 <= j && j < len(buf) ==> buf[j] == R[total + j]
+//@     invariant [C01 C03 C09 sim] PRel(p, spec.Run(spec.Init(false), X, total+skip-shift), total+skip-shift, total+skip-shift)
+//@     invariant [C07 own] POwn(p, buf)
+//@   loop 2
+//@     invariant -1 <= i && i < len(p.stack)
+//@     variant i + 1
+//@   at call Read#0
+//@     use spec.Run.unfold(spec.Init(false), X, 0)
+//@     assume !typeis($r1, ParseError, ptr)
+//@     assume forall j: 0 <= j && j < $r0 ==> buf[j] == R[j]
+//@     assume (shift == 0 || shift == 3) && ((shift == 3) <==> (2 < $r0 && R[0] == 0xEF && R[1] == 0xBB && R[2] == 0xBF))
+//@     assume $r0 <= 1152921504606846000
+//@   at call Read#1
+//@     assume !typeis($r1, ParseError, ptr)
+//@     assume forall j: 0 <= j && j < $r0 ==> buf[j] == R[total + j]
+//@     assume total + $r0 <= 1152921504606846000
+//@   at call parseBuffer#0
+//@     with S = X
+//@     with base = total + skip - shift
+//@     with qi = spec.Init(false)
+//@     use spec.Run.unfold(spec.Init(false), X, 0)
+//@     set cb = total + skip - shift
+//@     set cl = len(buf) - skip
+//@     set total = total + len(buf)
+//@   at call parseBuffer#1
+//@     with S = X
+//@     with base = total + skip - shift
+//@     with qi = spec.Init(false)
+//@     use spec.Run.unfold(spec.Init(false), X, 0)
+//@     set cb = total + skip - shift
+//@     set cl = len(buf) - skip
+//@     set total = total + len(buf)
